@@ -79,6 +79,8 @@ for fn in sys.argv[1:]:
         for k, v in REBASED.items():
             if v == rel:
                 key = k
+        if key is None and rel.startswith("../seeded/"):
+            key = ("round1", int(rel.split("/")[2][1:]))
         if key is None:
             parts = rel.split("/")
             key = ("/".join(parts[:2]), int(parts[2].split("_")[1].split(".")[0]))
@@ -146,6 +148,11 @@ for i in range(1, 26):
     if d is None:
         print("!!", sid, "does not apply to HEAD any more")
         continue
+    res = farm.get(("round1", i), {})
+    if res:
+        m = json.load(open(os.path.join(V, "seeded", sid, "meta.json")))
+        m["detected_by_final_checks"] = sorted(p for p, v in res.items() if v["rc"] == 1)
+        json.dump(m, open(os.path.join(V, "seeded", sid, "meta.json"), "w"), indent=1)
     if how != "as written":
         open(pth, "w").write(d)
         m = json.load(open(os.path.join(V, "seeded", sid, "meta.json")))
